@@ -309,6 +309,21 @@ class T:
 # ---------------------------------------------------------------------------
 
 
+class _NoCall:
+    """ghost value for `called(key)` when the function was not called on this path"""
+    _pyvc_native = True
+
+    def __getattr__(self, name):
+        if name.startswith("__"):
+            raise AttributeError(name)
+        return _NoCall()
+
+
+class _NoCallArgs(dict):
+    def __getitem__(self, k):
+        return _NoCall()
+
+
 def contract(key, props=()):
     def deco(cls):
         c = Contract(key, cls, props)
@@ -351,14 +366,22 @@ class Contract:
             """ghost: result of the n-th modular call to `key` on this path"""
             hits = [r for (k, b, r) in interp.call_log if k == key or k.endswith(key)]
             if len(hits) <= n:
-                raise CheckerFault(f"called({key!r}, {n}): no such modular call on this path")
+                return _NoCall()        # compares unequal / non-identical to everything
             return hits[n]
         vars["called"] = called
+
+        def old(x):
+            """entry-state value of a mutable input (object, array, list, dict)"""
+            sn = getattr(interp, "entry_snapshots", {})
+            if id(x) in sn:
+                return sn[id(x)][1]
+            return x
+        vars["old"] = old
 
         def called_args(key, n=0):
             hits = [b for (k, b, r) in interp.call_log if k == key or k.endswith(key)]
             if len(hits) <= n:
-                raise CheckerFault(f"called_args({key!r}, {n}): no such modular call on this path")
+                return _NoCallArgs()
             return hits[n]
         vars["called_args"] = called_args
         from . import stubs as _S
@@ -380,6 +403,24 @@ class Contract:
         def made_by(res, op):
             return any(r is res and o == op for (o, r, a, s_) in _S.GHOST["fft"])
         vars.update(fft_arg=fft_arg, fft_of=fft_of, made_by=made_by)
+
+        def sum_src(res):
+            """ghost: (array, axes) whose axis-sum produced `res` on this path"""
+            for (r, a, ax) in _S.GHOST.get("sum", []):
+                if r is res:
+                    return a
+            return fresh_array("no_such_sum", 6, "real")
+
+        def sum_axes(res):
+            for (r, a, ax) in _S.GHOST.get("sum", []):
+                if r is res:
+                    return ax
+            return None
+
+        def writes_to(obj):
+            """frame ghost: number of attribute / item writes to this (pre-existing) object on this path"""
+            return sum(1 for (o, n) in (getattr(interp, "write_log", None) or []) if o is obj)
+        vars.update(sum_src=sum_src, sum_axes=sum_axes, writes_to=writes_to)
         vars.update(self.helpers)
         vars.update(bound)
         if extra:
